@@ -220,6 +220,19 @@ _ADD8 = {
     "C19": " has_method / has_class answer true for exactly one method and one class (16-bit arguments beyond the 12-bit range included).",
     "C20": " Shape 'answered between two polls of one instant'; the monitor's mutable-handle observation is made in every other history only.",
 }
+_ADD12 = {
+    "C01": " A hang anywhere in the inspection of a buffer (not only inside the instrumented calls) is attributed to the buffer and replayed alone; small requests policed with 16..5000 absent required types.",
+    "C03": " Every attribute is also looked up by type (raw_attribute / has_attribute / attribute::<T>()); attribute counts 9..=40; a twin program of the same shape sealed in lockstep with the program; refused additions (duplicate raw / typed type, additions after a seal) leave byte_len / build / write_into unchanged.",
+    "C05": " Calls routed through a request handle followed by cancel / cancel_retransmissions / configure_timeout on the same handle; a call that does not return is attributed to the history and replayed alone.",
+    "C06": " Schedules of signed and unsigned requests with bystander calls in between (credentials set and changed, peers' messages, stray and forged responses, datagrams and non-requests sent, other transactions started / answered / cancelled, refused duplicates, calls through handles); initial RTO of 0, an hour, a day; a poll routed through a handle and the same handle then reconfigures / cancels.",
+    "C07": " Error responses that are the 401 / 438 challenge as servers send it (REALM, NONCE, PASSWORD-ALGORITHMS; signed or not); long-term local credentials in the enumerated alphabet (17 operations); the model takes 'signed' from the calls that signed the request.",
+    "C09": " Right after a fingerprinted builder a twin of the same shape (type, id, attribute types, lengths; other contents) is built on the same thread.",
+    "C18": " One destination in six is a special address (wildcards, port 0, multicast, broadcast, IPv4-mapped, zoned, flow-labelled); a request, an indication and a response to each of the 24 special addresses, the request followed and answered from exactly that address.",
+    "C19": " Copies made with clone_from (directly and through Option / Vec) into builders that exist; ids that differ in any one of the 96 bits, in two bits at distances 1..64, or by swapped words are different under == and hashing, bits above 96 are ignored.",
+    "C20": " Stale-instant histories whose first instant is the late one (a request answered / cancelled late, or an idle poll, then a request started earlier).",
+}
+for _k, _t in _ADD12.items():
+    PROPS[_k]["rule"] += _t
 for _k, _t in _ADD.items():
     PROPS[_k]["rule"] += _t
 for _k, _t in _ADD8.items():
